@@ -39,7 +39,16 @@ SlistOK(e) ==
        /\ e.post.tail[q] = (IF Len(s) = 0 THEN K + q ELSE s[Len(s)])     \* the tail designates the last node
        /\ LET o == (q - 1) * 4 IN e.mac[o + 1] = Ls[q] /\ e.mac[o + 2] = Ls[q] /\ e.mac[o + 3] = Ls[q] /\ e.mac[o + 4] = Ls[q]     \* traversal macros
 
-Accept(e) == IF "tail" \in DOMAIN e.post THEN SlistOK(e) ELSE ListOK(e)
+\* the raw linking primitives on nodes X = 1, Y = 2 whose fields <<X.next, X.prev, Y.next, Y.prev>> all designate node 3
+\* beforehand: link(X, Y) sets X.next and Y.prev; loop(X, Y) sets X.prev and Y.next; constructor, destructor and init
+\* make a node its own neighbour in both directions; nothing else moves.  Singly linked: link sets the one field,
+\* constructor / destructor / init give an empty chain whose tail is the head.
+PrimsOK(e) ==
+  /\ e.link = <<2, 3, 3, 1>> /\ e.loop = <<3, 2, 1, 3>>
+  /\ e.ctor = <<1, 1, 3, 3>> /\ e.dtor = <<3, 3, 2, 2>> /\ e.init = <<1, 1, 3, 3>>
+  /\ e.slink = <<2, 3>> /\ e.sctor = <<1, 1>> /\ e.sdtor = <<1, 1>> /\ e.sinit = <<1, 1>>
+
+Accept(e) == IF "prims" \in DOMAIN e THEN PrimsOK(e) ELSE IF "tail" \in DOMAIN e.post THEN SlistOK(e) ELSE ListOK(e)
 
 TraceInit == l = 1
 Step == /\ l <= Len(Tr)
